@@ -1133,7 +1133,7 @@ def run(chk):
                 continue
             crash_suite(chk, w["script"], w["Ks"], base, "corpus")
         # ---- 2. statement-trace suite
-        n_tr = 40 if quick else 200
+        n_tr = 30 if quick else 200
         scripts = [gen_script(rng, rng.randint(8, 16)) for _ in range(n_tr)] + FIXED_CRASH_SCRIPTS
         nops = trace_suite(chk, scripts, base=base)
         # ---- 3. crash replay
@@ -1148,8 +1148,8 @@ def run(chk):
                 continue
             total_points += n
             if quick:
-                Ks = set([1, 2, n, n + 1] + [rng.randint(1, n) for _ in range(12)]
-                         + [rng.randint(max(1, n // 2), n) for _ in range(8)])
+                Ks = set([1, 2, n, n + 1] + [rng.randint(1, n) for _ in range(8)]
+                         + [rng.randint(max(1, n // 2), n) for _ in range(6)])
                 if ci == TARGETED_SCRIPT:
                     tk = step_windows(sc, acks, TARGETED_KINDS)
                     chk.cov["targeted_crash_points"] = len(tk)
